@@ -307,6 +307,9 @@ func Gen(cfg Config) func(t *rapid.T) Script {
 				if cfg.Retype && s.U.Manifests[op.M].Kind == "opaque" && rapid.IntRange(0, 2).Draw(t, "retypePush") == 0 {
 					op.Mode = 1
 				}
+				if k := s.U.Manifests[op.M].Kind; cfg.Retype && (k == "image" || k == "index") && rapid.IntRange(0, 5).Draw(t, "retypeStructured") == 0 {
+					op.Mode = 1 // the same bytes as an opaque document
+				}
 				op.T = -1
 				if rapid.IntRange(0, 2).Draw(t, "tagged") > 0 {
 					op.T = rapid.IntRange(0, ntag-1).Draw(t, "tag")
